@@ -55,7 +55,7 @@ def regress_jobs(pid, scratch):
     out = []
     for p in sorted(glob.glob(os.path.join(vlib.ROOT, 'regress', '*.json'))):
         r = json.load(open(p))
-        if pid not in r.get('properties', []):
+        if pid not in r.get('properties', []) or r.get('family') == 'gap':
             continue
         th = r['theme']
         base = th['module'][:-4]
@@ -141,6 +141,8 @@ def match_known(pid, job, res, known):
 
 
 def describe(h):
+    if isinstance(h, dict):     # gap history
+        h = h['steps']
     out = []
     for s in h:
         a = s['a']
@@ -203,6 +205,14 @@ def follower_check(pid, tier, scratch, replay, plan):
                 transitions += r.get('generated', 0)
             gen_runs.append(dict(cfg=g['cfg'], overrides=ov, simulate=sim, histories=len(hs), replayed=len(take),
                                  exhaustive_enumeration=(sim is None), wall_s=round(r['wall'], 1)))
+    for stage in plan.get('stages', []):
+        sj, smc, sgen, sst, str_ = stage(tier, scratch, rnd)
+        n_regress += sum(1 for j in sj if j['src'].startswith('regress/'))
+        jobs += sj
+        mc_runs += smc
+        gen_runs += sgen
+        states += sst
+        transitions += str_
     if not jobs:
         raise Infra('no behaviours generated')
     # 3. conformance: replay into the real code
@@ -238,12 +248,12 @@ def follower_check(pid, tier, scratch, replay, plan):
     if len(infra) > max(2, len(jobs) // 20):
         raise Infra('%d of %d replays failed for infrastructure reasons, e.g. %s' % (len(infra), len(jobs), (infra[0][1] or {}).get('err')))
     # 4. report
-    distinct_acts = len(set(describe(j['h']) for j in jobs))
-    samples = [dict(source=j['src'], history=describe(j['h']), quiescent_points_compared=(r or {}).get('compared'))
+    distinct_acts = len(set(describe(j.get('desc', j['h'])) for j in jobs))
+    samples = [dict(source=j['src'], history=describe(j.get('desc', j['h'])), quiescent_points_compared=(r or {}).get('compared'))
                for j, r in list(zip(jobs, results))[:3]]
     for kid, hits in known_hits.items():
         k = next(x for x in known if x['id'] == kid)
-        print('KNOWN-FINDING: property=%s %s (%d behaviours; e.g. %s)' % (pid, k['summary'], len(hits), describe(hits[0][0]['h'])))
+        print('KNOWN-FINDING: property=%s %s (%d behaviours; e.g. %s)' % (pid, k['summary'], len(hits), describe(hits[0][0].get('desc', hits[0][0]['h']))))
     paths = []
     seen = set()
     for job, res in violations:
@@ -257,7 +267,7 @@ def follower_check(pid, tier, scratch, replay, plan):
         paths.append(p)
         print('VIOLATION property=%s replay=%s' % (pid, p))
         print('  kinds: %s' % sig)
-        print('  history: %s' % describe(job['h']))
+        print('  history: %s' % describe(job.get('desc', job['h'])))
         for d in (res.get('diffs') or [])[:6]:
             print('  diff: %s %s %s want=%s got=%s' % (d['kind'], d.get('wallet', ''), d['what'], d['want'], d['got']))
         if res.get('err'):
@@ -405,7 +415,74 @@ PLAN_C06['gens'][0]['thorough'].append(SIM(1500, 18, **dict(LIFE, Crashes='TRUE'
 KINDS['C06'] += ['wallet-status']
 
 
+# ---- C12, second sentence: spec/Gap.tla (issue rule, restore scan) ----
+GAP_KINDS = ['issue-refused', 'issue-not-next-index', 'issue-beyond-gap', 'issue-error', 'restart-wallet-lost', 'address-unexpected',
+             'restore-failed', 'restore-other-wallet', 'restore-foreign-address', 'restore-extra', 'restore-short', 'restore-used',
+             'restore-missed-funded', 'restore-missed-funded-predicted', 'restore-coins', 'synced', 'api-error']
+KINDS['C12'] = KINDS['C12'] + GAP_KINDS
+GAP_TIERS = dict(
+    quick=dict(mc=[{'G': '2', 'MaxIssue': '6', 'MaxBlocks': '5'}, {'G': '3', 'MaxIssue': '7', 'MaxBlocks': '4'}],
+               gens=[dict(G='2', num=70, len=14), dict(G='3', num=50, len=16), dict(G='4', num=20, len=18, MaxIssue='9'), dict(G='2', num=6000, len=12, want='miss', sample=3)]),
+    thorough=dict(mc=[{'G': '2', 'MaxIssue': '7', 'MaxBlocks': '6'}, {'G': '3', 'MaxIssue': '8', 'MaxBlocks': '5'}, {'G': '4', 'MaxIssue': '9', 'MaxBlocks': '4'}],
+                  gens=[dict(G='2', num=900, len=16), dict(G='3', num=700, len=18), dict(G='4', num=400, len=20, MaxIssue='10'),
+                        dict(G='5', num=200, len=24, MaxIssue='12', MaxBlocks='12'),
+                        dict(G='2', num=30000, len=12, want='miss', sample=40)]),
+)
+
+
+def gap_stage(tier, scratch, rnd):
+    """returns (jobs, model runs, generator runs, states, transitions)"""
+    T = GAP_TIERS[tier]
+    jobs, mc_runs, gen_runs, states, transitions = [], [], [], 0, 0
+    for ov in T['mc']:
+        r = vlib.tlc('MC_Gap.cfg', 'Gap.tla', scratch, overrides=ov, timeout=3000)
+        vlib.require_clean(r, 'model MC_Gap.cfg %s' % ov)
+        states += r.get('distinct', 0)
+        transitions += r.get('generated', 0)
+        mc_runs.append(dict(cfg='MC_Gap.cfg', overrides=ov, distinct=r.get('distinct'), generated=r.get('generated'), wall_s=round(r['wall'], 1),
+                            invariants='RestoreFindsFunded GapInv RestoreTight (the chain only grows)'))
+    # with reorganisations the restore guarantee does not follow from the issue rule: the model must still show it
+    # (this is the model-level statement of known finding K-C12-1; the conformance below shows the code does the same)
+    r = vlib.tlc('MC_Gap_reorg.cfg', 'Gap.tla', scratch, timeout=1200)
+    if not (r['violated'] and 'RestoreFindsFunded' in r['violated']):
+        raise Infra('MC_Gap_reorg.cfg: expected RestoreFindsFunded to be violated once payments can be reorganised away, got %s\n%s' % (r['violated'], r['log'][-1500:]))
+    mc_runs.append(dict(cfg='MC_Gap_reorg.cfg', expected_violation='RestoreFindsFunded', wall_s=round(r['wall'], 1)))
+
+    def add(hist_text, src):
+        h = json.loads(hist_text)
+        jobs.append(dict(u={}, h=[], desc=h, mode='gap', opt={'gaphist': h}, src=src))
+    for p in sorted(glob.glob(os.path.join(vlib.ROOT, 'regress', '*.json'))):
+        rj = json.load(open(p))
+        if rj.get('family') != 'gap':
+            continue
+        mod = '---- MODULE GapReg ----\nEXTENDS GapGen\nRegScript == %s\n====\n' % vlib.tla(rj['actions'])
+        ov = dict(rj.get('overrides', {}))
+        ov.update({'GenLen': str(len(rj['actions'])), 'Script': '<- RegScript', 'GenRandom': 'FALSE', 'MaxIssue': '10', 'MaxBlocks': '16', 'MaxReorg': '3',
+                   'Hints': '{0, 1, 2, 3, 4, 5, 6, 7, 8}'})
+        t = vlib.tlc('Gen_Gap.cfg', 'GapReg.tla', scratch, overrides=ov, extra_files={'GapReg.tla': mod}, workers=2, timeout=300)
+        vlib.require_clean(t, 'regression script %s' % os.path.basename(p))
+        hs = sorted(set(t['histories']))
+        if len(hs) != 1:
+            raise Infra('regression script %s: the specification admits %d behaviours for it (expected 1)\n%s' % (os.path.basename(p), len(hs), t['log'][-1500:]))
+        add(hs[0], 'regress/' + os.path.basename(p))
+    for k, g in enumerate(T['gens']):
+        ov = {'G': g['G'], 'GenLen': str(g['len']), 'GenWant': '"%s"' % g.get('want', '')}
+        for c in ('MaxIssue', 'MaxBlocks'):
+            if c in g:
+                ov[c] = g[c]
+        sim = dict(num=g['num'], depth=g['len'], seed=vlib.seed() * 104729 + k)
+        r = vlib.tlc('Gen_Gap.cfg', 'GapGen.tla', scratch, overrides=ov, simulate=sim, timeout=3000)
+        vlib.require_clean(r, 'generator Gen_Gap.cfg %s' % ov)
+        hs = sorted(set(r['histories']))
+        take = vlib.sample(hs, g.get('sample', len(hs)), rnd)
+        for h in take:
+            add(h, 'Gen_Gap.cfg')
+        gen_runs.append(dict(cfg='Gen_Gap.cfg', overrides=ov, simulate=sim, histories=len(hs), replayed=len(take), exhaustive_enumeration=False, wall_s=round(r['wall'], 1)))
+    return jobs, mc_runs, gen_runs, states, transitions
+
+
 PLAN_C12 = dict(
+    stages=[gap_stage],
     mc=dict(quick=[('MC_Crash.cfg', 'MC_Sync.tla', {'MaxBlocks': '5'})],
             thorough=[('MC_Crash.cfg', 'MC_Sync.tla', {'MaxBlocks': '6'})]),
     gens=[gen('Gen_Pay.cfg', 'MC_Pay.tla',
@@ -417,7 +494,10 @@ PLAN_C12 = dict(
           gen('Gen_Stake.cfg', 'MC_Stake.tla', universe_extra=STAKE_X,
               quick=[SIM(80, 14)],
               thorough=[SIM(1500, 16, **CR)])],
-    assume=['decides the clauses "listed from then on (also after restart)" and "used flag true exactly when the best chain contains a payment to it" on issued addresses of both classes; the gap-limit refusal and the restore guarantee are decided by spec/Gap.tla when present (see DESIGN.md)'],
+    assume=['first sentence (listed from then on, also after restart; used flag true exactly when the best chain contains a payment) is decided on the follower universes and again on the Gap histories, which issue addresses of both classes dynamically and compare every issued address with an independent derivation at its index',
+            'second sentence: spec/Gap.tla transcribes the issue rule of nextAddresses and the scan of createManagerKeyScope; TLC shows RestoreFindsFunded while the chain only grows, and shows it violated once a reorganisation removes the payment that justified issuing further (K-C12-1); every Issue outcome and every restore result of the real code is compared with the model',
+            'gap limits 2..5 (the rule is the same arithmetic for every limit; the default 20 is not run)',
+            'GetAddresses also lists the standard form of a staking address that received funds (same key): accepted, it is not an address of another key'],
 )
 PROPS['C12'] = plan_check(PLAN_C12)
 
